@@ -271,15 +271,22 @@ def work(task):
     datasets = [('square', rand_square_data(rng, len(sl), len(jn), emax)) for _ in range(nsq)] + \
                [('generic', None) for _ in range(ngen)]
     slowcls = [int(x) for t in tags if t.startswith('slow=') for x in t[5:].split(',') if x != '']
+    prev_args = None
     for kind, sq in datasets:
         if kind == 'square':
             for k in slowcls: sq['preT'][k] = sq['preT'][k] / 10
             args = square_args(sq)
             datarep = dict(kind='square', qh=str(QH), spre=[str(x) for x in sq['spre']], ene=sq['ene'], preT=[str(x) for x in sq['preT']], eneT=sq['eneT'])
+        elif kind == 'generic' and prev_args is not None and rng.random() < 0.35:
+            # same calculator, consecutive call in which ONLY the site prefactors change (call-history sensitivity)
+            args = ([p * rng.choice([0.25, 0.5, 2.0, 3.0]) for p in prev_args[0]], list(prev_args[1]), list(prev_args[2]), list(prev_args[3]))
+            datarep = dict(kind='generic:pre-only-change', pre=args[0], betaene=args[1], preT=args[2], betaeneT=args[3])
+            count('pre-only-change')
         else:
             args = rand_generic_args(rng, len(sl), len(jn), rng.choice([0.0, 0.5, 1.5, 3.0]))
             for k in slowcls: args[2][k] = args[2][k] / 10
             datarep = dict(kind='generic', pre=args[0], betaene=args[1], preT=args[2], betaeneT=args[3])
+        prev_args = args
         rep0 = dict(desc, data=datarep)
         lam = rng.choice([0.037, 0.5, 3.7, 41.0])
         try:
